@@ -28,9 +28,9 @@ Extract/C13x.vos Extract/C13x.vok Extract/C13x.required_vos: Extract/C13x.v Mode
 Extract/C14x.vo Extract/C14x.glob Extract/C14x.v.beautified Extract/C14x.required_vo: Extract/C14x.v Model/LspText.vo Spec/C14.vo
 Extract/C14x.vio: Extract/C14x.v Model/LspText.vio Spec/C14.vio
 Extract/C14x.vos Extract/C14x.vok Extract/C14x.required_vos: Extract/C14x.v Model/LspText.vos Spec/C14.vos
-Extract/C15x.vo Extract/C15x.glob Extract/C15x.v.beautified Extract/C15x.required_vo: Extract/C15x.v Model/FmtEdit.vo
-Extract/C15x.vio: Extract/C15x.v Model/FmtEdit.vio
-Extract/C15x.vos Extract/C15x.vok Extract/C15x.required_vos: Extract/C15x.v Model/FmtEdit.vos
+Extract/C15x.vo Extract/C15x.glob Extract/C15x.v.beautified Extract/C15x.required_vo: Extract/C15x.v Model/FmtEdit.vo Spec/C15Judge.vo
+Extract/C15x.vio: Extract/C15x.v Model/FmtEdit.vio Spec/C15Judge.vio
+Extract/C15x.vos Extract/C15x.vok Extract/C15x.required_vos: Extract/C15x.v Model/FmtEdit.vos Spec/C15Judge.vos
 Extract/C16x.vo Extract/C16x.glob Extract/C16x.v.beautified Extract/C16x.required_vo: Extract/C16x.v Model/Rename.vo
 Extract/C16x.vio: Extract/C16x.v Model/Rename.vio
 Extract/C16x.vos Extract/C16x.vok Extract/C16x.required_vos: Extract/C16x.v Model/Rename.vos
@@ -64,6 +64,9 @@ Model/Fb.vos Model/Fb.vok Model/Fb.required_vos: Model/Fb.v
 Model/FmtEdit.vo Model/FmtEdit.glob Model/FmtEdit.v.beautified Model/FmtEdit.required_vo: Model/FmtEdit.v 
 Model/FmtEdit.vio: Model/FmtEdit.v 
 Model/FmtEdit.vos Model/FmtEdit.vok Model/FmtEdit.required_vos: Model/FmtEdit.v 
+Model/FmtIndent.vo Model/FmtIndent.glob Model/FmtIndent.v.beautified Model/FmtIndent.required_vo: Model/FmtIndent.v 
+Model/FmtIndent.vio: Model/FmtIndent.v 
+Model/FmtIndent.vos Model/FmtIndent.vok Model/FmtIndent.required_vos: Model/FmtIndent.v 
 Model/HirDb.vo Model/HirDb.glob Model/HirDb.v.beautified Model/HirDb.required_vo: Model/HirDb.v 
 Model/HirDb.vio: Model/HirDb.v 
 Model/HirDb.vos Model/HirDb.vok Model/HirDb.required_vos: Model/HirDb.v 
@@ -154,6 +157,9 @@ Proofs/C13Proofs.vos Proofs/C13Proofs.vok Proofs/C13Proofs.required_vos: Proofs/
 Proofs/C14Proofs.vo Proofs/C14Proofs.glob Proofs/C14Proofs.v.beautified Proofs/C14Proofs.required_vo: Proofs/C14Proofs.v Model/LspText.vo Spec/C14.vo
 Proofs/C14Proofs.vio: Proofs/C14Proofs.v Model/LspText.vio Spec/C14.vio
 Proofs/C14Proofs.vos Proofs/C14Proofs.vok Proofs/C14Proofs.required_vos: Proofs/C14Proofs.v Model/LspText.vos Spec/C14.vos
+Proofs/C15Indent.vo Proofs/C15Indent.glob Proofs/C15Indent.v.beautified Proofs/C15Indent.required_vo: Proofs/C15Indent.v Model/FmtIndent.vo gen/C15Kinds.vo Spec/C15Judge.vo
+Proofs/C15Indent.vio: Proofs/C15Indent.v Model/FmtIndent.vio gen/C15Kinds.vio Spec/C15Judge.vio
+Proofs/C15Indent.vos Proofs/C15Indent.vok Proofs/C15Indent.required_vos: Proofs/C15Indent.v Model/FmtIndent.vos gen/C15Kinds.vos Spec/C15Judge.vos
 Proofs/C15Proofs.vo Proofs/C15Proofs.glob Proofs/C15Proofs.v.beautified Proofs/C15Proofs.required_vo: Proofs/C15Proofs.v Model/FmtEdit.vo
 Proofs/C15Proofs.vio: Proofs/C15Proofs.v Model/FmtEdit.vio
 Proofs/C15Proofs.vos Proofs/C15Proofs.vok Proofs/C15Proofs.required_vos: Proofs/C15Proofs.v Model/FmtEdit.vos
@@ -226,9 +232,9 @@ Properties/C13.vos Properties/C13.vok Properties/C13.required_vos: Properties/C1
 Properties/C14.vo Properties/C14.glob Properties/C14.v.beautified Properties/C14.required_vo: Properties/C14.v Model/LspText.vo Spec/C14.vo Proofs/C14Proofs.vo
 Properties/C14.vio: Properties/C14.v Model/LspText.vio Spec/C14.vio Proofs/C14Proofs.vio
 Properties/C14.vos Properties/C14.vok Properties/C14.required_vos: Properties/C14.v Model/LspText.vos Spec/C14.vos Proofs/C14Proofs.vos
-Properties/C15.vo Properties/C15.glob Properties/C15.v.beautified Properties/C15.required_vo: Properties/C15.v Model/FmtEdit.vo Proofs/C15Proofs.vo
-Properties/C15.vio: Properties/C15.v Model/FmtEdit.vio Proofs/C15Proofs.vio
-Properties/C15.vos Properties/C15.vok Properties/C15.required_vos: Properties/C15.v Model/FmtEdit.vos Proofs/C15Proofs.vos
+Properties/C15.vo Properties/C15.glob Properties/C15.v.beautified Properties/C15.required_vo: Properties/C15.v Model/FmtEdit.vo Proofs/C15Proofs.vo Model/FmtIndent.vo gen/C15Kinds.vo Spec/C15Judge.vo Proofs/C15Indent.vo
+Properties/C15.vio: Properties/C15.v Model/FmtEdit.vio Proofs/C15Proofs.vio Model/FmtIndent.vio gen/C15Kinds.vio Spec/C15Judge.vio Proofs/C15Indent.vio
+Properties/C15.vos Properties/C15.vok Properties/C15.required_vos: Properties/C15.v Model/FmtEdit.vos Proofs/C15Proofs.vos Model/FmtIndent.vos gen/C15Kinds.vos Spec/C15Judge.vos Proofs/C15Indent.vos
 Properties/C16.vo Properties/C16.glob Properties/C16.v.beautified Properties/C16.required_vo: Properties/C16.v Model/Rename.vo Proofs/C16Proofs.vo
 Properties/C16.vio: Properties/C16.v Model/Rename.vio Proofs/C16Proofs.vio
 Properties/C16.vos Properties/C16.vok Properties/C16.required_vos: Properties/C16.v Model/Rename.vos Proofs/C16Proofs.vos
@@ -271,6 +277,9 @@ Spec/C12Judge.vos Spec/C12Judge.vok Spec/C12Judge.required_vos: Spec/C12Judge.v 
 Spec/C14.vo Spec/C14.glob Spec/C14.v.beautified Spec/C14.required_vo: Spec/C14.v Model/LspText.vo
 Spec/C14.vio: Spec/C14.v Model/LspText.vio
 Spec/C14.vos Spec/C14.vok Spec/C14.required_vos: Spec/C14.v Model/LspText.vos
+Spec/C15Judge.vo Spec/C15Judge.glob Spec/C15Judge.v.beautified Spec/C15Judge.required_vo: Spec/C15Judge.v Model/FmtIndent.vo gen/C15Kinds.vo
+Spec/C15Judge.vio: Spec/C15Judge.v Model/FmtIndent.vio gen/C15Kinds.vio
+Spec/C15Judge.vos Spec/C15Judge.vok Spec/C15Judge.required_vos: Spec/C15Judge.v Model/FmtIndent.vos gen/C15Kinds.vos
 Spec/C17Judge.vo Spec/C17Judge.glob Spec/C17Judge.v.beautified Spec/C17Judge.required_vo: Spec/C17Judge.v Model/Debug.vo
 Spec/C17Judge.vio: Spec/C17Judge.v Model/Debug.vio
 Spec/C17Judge.vos Spec/C17Judge.vok Spec/C17Judge.required_vos: Spec/C17Judge.v Model/Debug.vos
@@ -289,6 +298,9 @@ Spec/C20Judge.vos Spec/C20Judge.vok Spec/C20Judge.required_vos: Spec/C20Judge.v 
 gen/C05Sites.vo gen/C05Sites.glob gen/C05Sites.v.beautified gen/C05Sites.required_vo: gen/C05Sites.v 
 gen/C05Sites.vio: gen/C05Sites.v 
 gen/C05Sites.vos gen/C05Sites.vok gen/C05Sites.required_vos: gen/C05Sites.v 
+gen/C15Kinds.vo gen/C15Kinds.glob gen/C15Kinds.v.beautified gen/C15Kinds.required_vo: gen/C15Kinds.v 
+gen/C15Kinds.vio: gen/C15Kinds.v 
+gen/C15Kinds.vos gen/C15Kinds.vok gen/C15Kinds.required_vos: gen/C15Kinds.v 
 gen/C18Tables.vo gen/C18Tables.glob gen/C18Tables.v.beautified gen/C18Tables.required_vo: gen/C18Tables.v 
 gen/C18Tables.vio: gen/C18Tables.v 
 gen/C18Tables.vos gen/C18Tables.vok gen/C18Tables.required_vos: gen/C18Tables.v 
